@@ -13,7 +13,7 @@
 //!   fallback names — recorded by `TransportService::new`, see `crate::verif::note_service`), the
 //!   installed connection limits, transports, known addresses and listen addresses. Deterministic.
 //! * dynamic operations (`dial`, `dialaddr`, `open_notif`, `notify`, `request`, `respond`,
-//!   `close`, `wait`, `settle`, `await`, `events`, …) — real sockets and real time; every handle
+//!   `close`, `wait`, `settle` = no event for 350 ms, `await`, `events`, …) — real sockets and real time; every handle
 //!   is pumped by a task into a per-node ledger that `events <i>` prints per source, in order
 //!   within a source. Peers are printed by node index, addresses by (node, listen index), request
 //!   ids by order of appearance; durations are printed in milliseconds (`@<ms>`), never compared
@@ -1235,7 +1235,7 @@ impl VerifBox for NodeBox {
             },
             ["settle"] | ["settle", _] => {
                 let quiet = match t.get(1).map(|s| s.parse::<u64>()) {
-                    None => 250,
+                    None => 350,
                     Some(Ok(ms)) if (20..=2000).contains(&ms) => ms,
                     _ => return "bad-op".into(),
                 };
